@@ -115,6 +115,8 @@ func (t *ATable) AddSeparator() Table {
 	t.rows = append(t.rows, sep)
 	sep.inTable = t
 	sep.rowNum = len(t.rows)
+	// errors from misuse of the separator (eg, adding cells) are the table's
+	sep.ErrorContainer = t.ErrorContainer
 	return t
 }
 
